@@ -37,6 +37,10 @@ def main():
     manifest = json.load(open(os.path.join(ROOT, "MANIFEST.json")))
     ids = [c["property_id"] for c in manifest["checks"]]
     for name in names:
+        only = None
+        if "=" in name:          # name=C05,C20: only these checks
+            name, only = name.split("=", 1)
+            only = only.split(",")
         d = os.path.join(src_root, name)
         patch = os.path.join(d, "patch.diff")
         rc, out = sh("git checkout -- . && git apply %s" % patch, cwd=repo)
@@ -45,7 +49,7 @@ def main():
             continue
         res = {}
         try:
-            for pid in ids:
+            for pid in (only or ids):
                 rc, out = sh("python3 verif.py check %s --tier quick" % pid, cwd=ROOT, env={"VERIF_REPO": repo})
                 viol = [l for l in out.split("\n") if l.startswith("VIOLATION")]
                 why = None
